@@ -100,6 +100,10 @@ class _Sweep:
         return [(f, n) for (f, n) in self.refs if n.attr == attr]
 
 
+def _is_file_move(c):
+    return call_tail(c) in RENAMES and (call_name(c).startswith(("os.", "shutil.", "fileutil.")) or isinstance(c.func, ast.Name))
+
+
 def _reaching_value(fnorm, node, name):
     """AST of the unique definition of local `name` reaching `node` (None when not unique)."""
     ds = fnorm.rd.get(node.id, {}).get(name)
@@ -484,8 +488,8 @@ def run(ctx: Context):
             for tail in [cs.tail]:
                 if cs.fn.module is not offmod or not _inner(cs.fn, cs.call):
                     continue
-                if cs.name.startswith(("self.", "log.")) and tail in ("copy",):
-                    continue
+                if not _is_file_move(cs.call):
+                    continue     # str.replace, dict.copy, ... : not file operations
                 n_ren += 1
                 r.site(cs.fn, cs.call, "rename-like")
                 if cs.fn.qual != done.qual:
@@ -497,7 +501,7 @@ def run(ctx: Context):
         if n_ren == 0:
             raise AnchorVanished("no incoming -> encoding rename in offloaded.py")
         dcfg = done.cfg()
-        is_ren = lambda n: any(call_tail(c) in RENAMES for c in node_calls(n))
+        is_ren = lambda n: any(_is_file_move(c) for c in node_calls(n))
         for (n, w) in find_path_avoiding(dcfg, is_ren, gate_node=has_call_named("self._f.close")):
             r.violation(done, done.loc(n.ast), "ciphertext file is renamed before it is closed (flushed)", w)
         # opening the encoding file for writing anywhere in the module
